@@ -369,11 +369,8 @@ fn run_family(rep: &Report, name: &str, scenarios: Vec<Scenario>) {
             }
             Err((class, what)) => {
                 // replay twice
-                let again = check_scenario(&scenarios[i]);
-                if again.as_ref().err().map(|e| &e.1) != Some(&what) {
-                    eprintln!("MACHINERY ERROR: C03 violation does not replay deterministically: {what}");
-                    std::process::exit(2);
-                }
+                let note = crate::util::confirm_or_exit("C03", &what, || check_scenario(&scenarios[i]).err().map(|e| e.1));
+                let what = format!("{what}{note}");
                 rep.violation(Violation::new(
                     format!("{class}:{name}"),
                     what,
